@@ -68,6 +68,9 @@ pub use persistence::{Journal, PersistenceError};
 pub struct SqliteZoneHandler<P = TokioRuntimeProvider> {
     in_memory: InMemoryZoneHandler<P>,
     journal: Mutex<Option<Journal>>,
+    /// Held from the prerequisite check to the end of an UPDATE, so that concurrent updates are
+    /// applied one after another.
+    update_lock: Mutex<()>,
     axfr_policy: AxfrPolicy,
     allow_update: bool,
     is_dnssec_enabled: bool,
@@ -101,6 +104,7 @@ impl<P: RuntimeProvider + Send + Sync> SqliteZoneHandler<P> {
         Self {
             in_memory,
             journal: Mutex::new(None),
+            update_lock: Mutex::new(()),
             axfr_policy,
             allow_update,
             is_dnssec_enabled,
@@ -1148,6 +1152,10 @@ impl<P: RuntimeProvider + Send + Sync> ZoneHandler for SqliteZoneHandler<P> {
                 (Err(e), signer) => return (Err(e), signer),
                 (_, signer) => signer,
             };
+
+            // RFC 2136 3.2-3.4: the prerequisites are judged against the zone the update is then
+            // applied to, so two updates must not interleave between these steps.
+            let _serialized = self.update_lock.lock().await;
 
             #[cfg(feature = "verif-hooks")]
             verif_yield().await;
